@@ -3,16 +3,22 @@
    read - whether it delivers 8 or 4 bytes per read command (cap8), for how many status polls
    it is still busy before the first command (init: an operation pending from before), and
    for how many polls it reports busy after each accepted read command (busy: a pattern of
-   PatLen durations, repeated for as many read commands as the master issues).  Every script
-   is printed once, for replay against the real code.                                        *)
-EXTENDS Integers, Sequences, TLC, Json
-CONSTANTS MaxBusy, PatLen, MaxInit
+   PatLen durations, repeated for as many read commands as the master issues).
+   The property says "however long it reports busy": durations come from two sets, Short (a
+   few polls) and Long (around and far beyond any plausible poll limit of a master); a pattern
+   holds between MinLongs and MaxLongs long durations, at every position, so that long waits
+   hit the first as well as the second command of a 4-byte read and the runs stay affordable.
+   Every script is printed once, for replay against the real code.                           *)
+EXTENDS Integers, Sequences, FiniteSets, TLC, Json
+CONSTANTS Short, Long, MinLongs, MaxLongs, PatLen, Inits
 VARIABLES cap8, init, busy
-SInit == cap8 \in BOOLEAN /\ init \in 0 .. MaxInit /\ busy = <<>>
+Longs(s) == Cardinality({i \in 1 .. Len(s) : s[i] \in Long})
+SInit == cap8 \in BOOLEAN /\ init \in Inits /\ busy = <<>>
 SNext == /\ Len(busy) < PatLen
-         /\ \E b \in 0 .. MaxBusy : busy' = Append(busy, b)
+         /\ \E b \in Short \cup Long : /\ busy' = Append(busy, b)
+                                       /\ Longs(busy') <= MaxLongs
          /\ UNCHANGED <<cap8, init>>
 SSpec == SInit /\ [][SNext]_<<cap8, init, busy>>
-Emit == Len(busy) = PatLen =>
+Emit == (Len(busy) = PatLen /\ Longs(busy) >= MinLongs) =>
           PrintT(<<"SCRIPT", ToJson([cap8 |-> cap8, init |-> init, busy |-> busy])>>)
 =============================================================================
